@@ -135,6 +135,56 @@ fn c17b_header_accepted_2_fields() { header_accepts(2, false) }
 #[kani::stub(std::hash::RandomState::new, rs_stub)]
 fn c17b_header_accepted_3_fields() { header_accepts(3, false) }
 
+
+// ------------------------------------------------------------------ C17.c strings survive write -> parse, identical strings stored once
+/// three records with one string field referencing "a", "a", "b" (a repeated string): after write -> parse
+/// every record resolves to its original text, the size law holds and the block stores each string once
+#[kani::proof]
+#[kani::unwind(12)]
+#[kani::stub(std::fmt::format, vio::fmt_stub)]
+#[kani::stub(std::hash::RandomState::new, rs_stub)]
+fn c17c_strings_roundtrip_with_duplicate() {
+    let mut schema = Schema::new("t");
+    schema.add_field(SchemaField::new("s", FieldType::String));
+    let schema = Arc::new(schema);
+    // source string block: "\0a\0b\0"  (offsets: "" = 0, "a" = 1, "b" = 3)
+    let sb = StringBlock::parse(&mut Src::<5>::new([0, b'a', 0, b'b', 0], 5), 0, 5).unwrap();
+    let refs = [1u32, 1, 3];
+    let mut records = Vec::with_capacity(3);
+    let mut i = 0;
+    while i < 3 {
+        records.push(Record::new(vec![Value::StringRef(StringRef::new(refs[i]))], Some(Arc::clone(&schema))));
+        i += 1;
+    }
+    let rs = RecordSet::new(records, Some(Arc::clone(&schema)), sb);
+    let mut w = DbcWriter::new(Sink::<64>::new());
+    let r = w.write_records(&rs);
+    assert!(r.is_ok(), "writing a table with strings fails");
+    // size law: header + 3 records * 4 bytes + string block ("" , "a", "b" stored once each = 5 bytes)
+    assert!(w.writer.pos == 20 + 12 + 5, "written size != header + records*record_size + string block with each string stored once");
+    let p = DbcParser::parse_bytes(&w.writer.buf[..w.writer.pos]);
+    assert!(p.is_ok());
+    let p = p.unwrap().with_schema((*schema).clone());
+    assert!(p.is_ok(), "table written with a schema is rejected with the same schema");
+    let back = p.unwrap().parse_records();
+    assert!(back.is_ok());
+    let back = back.unwrap();
+    assert!(back.len() == 3);
+    let want: [&str; 3] = ["a", "a", "b"];
+    let mut k = 0;
+    while k < 3 {
+        let v = back.get_record(k).unwrap().get_value(0).unwrap();
+        let ok = match v {
+            Value::StringRef(sr) => matches!(back.get_string(*sr), Ok(t) if t == want[k]),
+            _ => false,
+        };
+        kani::cover!(ok);
+        assert!(ok, "a string reference resolves to a different text after write -> parse");
+        k += 1;
+    }
+    std::mem::forget((rs, w, back, r));
+}
+
 // ------------------------------------------------------------------ C05.dbc header parsers are total
 #[kani::proof]
 #[kani::unwind(6)]
